@@ -36,6 +36,19 @@ Proof. unfold zupd. rewrite Z.eqb_refl. reflexivity. Qed.
 Lemma zupd_neq {B} (f : Z -> B) k v i : i <> k -> zupd f k v i = f i.
 Proof. intros H. unfold zupd. destruct (Z.eqb_spec i k); congruence. Qed.
 
+(* panics: what is shared never carries the panic mark, and sharing is the identity on
+   everything but a panic *)
+Lemma shared_not_panic r : snd (shared r) <> epanic.
+Proof.
+  unfold shared. destruct (Z.eqb_spec (snd r) epanic) as [E|E]; cbn; [discriminate|exact E].
+Qed.
+
+Lemma shared_id r : snd r <> epanic -> shared r = r.
+Proof. intros H. unfold shared. destruct (Z.eqb_spec (snd r) epanic); [contradiction|reflexivity]. Qed.
+
+Lemma shared_idem r : shared (shared r) = shared r.
+Proof. apply shared_id. apply shared_not_panic. Qed.
+
 (* ------------------------------------------------------------------ *)
 (* the invariant                                                        *)
 
@@ -52,7 +65,7 @@ Definition lead_ok (s : state) (t : nat) (th : thread) (o : op) (c : nat) : Prop
   tinv th <= tjoin th /\ tjoin th < now s.
 
 Definition val_ok (s : state) (o : op) (c : nat) (r : Z * Z) : Prop :=
-  cval (heap s c) = Some r /\ (ogrp o <> GRM -> r = (oval o, oerr o)) /\
+  cval (heap s c) = Some (shared r) /\ (ogrp o <> GRM -> r = fn_ret o) /\
   (ogrp o = GRM -> snd r = 0%Z -> resources s (okey o) = Some (fst r)).
 
 Definition pc_ok (s : state) (t : nat) (th : thread) (o : op) : Prop :=
@@ -84,12 +97,16 @@ Definition rec_ok (s : state) (t : nat) (th : thread) (r : rec) : Prop :=
   let c := heap s (rcid r) in
   rcid r < nextc s /\ cgrp c = ogrp o /\ ckey c = okey o /\ cdone c = true /\
   rinv r <= rjoin r /\ rjoin r < rret r /\ rret r < now s /\
-  (ogrp o <> GLC -> cval c = Some (rval r, rerr r)) /\
+  (ogrp o <> GLC -> cval c = Some (shared (rval r, rerr r))) /\
   (rfresh r = true -> clead c = (t, rop r) /\ rruns r = 1 /\ cinvt c = rinv r /\ cret c = Some (rret r)) /\
   (rfresh r = false -> fst (clead c) <> t /\ rruns r = 0 /\ cinvt c <= rjoin r /\
                        exists rt, cret c = Some rt /\ rjoin r < rt) /\
-  (ogrp o = GLC -> rfresh r = true /\ rval r = oval o /\ rerr r = oerr o) /\
-  (ogrp o = GRM -> rerr r = 0%Z -> resources s (okey o) = Some (rval r)).
+  (ogrp o = GLC -> rfresh r = true /\ (rval r, rerr r) = fn_ret o) /\
+  (ogrp o = GRM -> rerr r = 0%Z -> resources s (okey o) = Some (rval r)) /\
+  (* (appended) the leader hands out what its own function handed to it; only a leader whose own
+     function panicked leaves a SingleFlight call by a panic *)
+  (rfresh r = true -> ogrp o <> GRM -> (rval r, rerr r) = fn_ret o) /\
+  (ogrp o = GSF -> rerr r = epanic -> rfresh r = true).
 
 Definition thread_ok (s : state) (t : nat) (th : thread) : Prop :=
   (cur_op th = None -> tpc th = PIdle) /\
@@ -101,10 +118,12 @@ Definition heap_ok (s : state) (c : nat) : Prop :=
   (exists thL oL, nth_error (threads s) (fst (clead h)) = Some thL /\
                   nth_error (tscript thL) (snd (clead h)) = Some oL /\
                   ogrp oL = cgrp h /\ okey oL = ckey h /\
-                  (cgrp h <> GRM -> forall r, cval h = Some r -> r = (oval oL, oerr oL))) /\
+                  (cgrp h <> GRM -> forall r, cval h = Some r -> r = shared (fn_ret oL))) /\
   (cdone h = true -> exists r rt, cval h = Some r /\ cret h = Some rt) /\
   (forall rt, cret h = Some rt -> rt < now s /\ cdone h = true) /\
-  (cgrp h = GRM -> forall r, cval h = Some r -> snd r = 0%Z -> resources s (ckey h) = Some (fst r)).
+  (cgrp h = GRM -> forall r, cval h = Some r -> snd r = 0%Z -> fst r <> vnil ->
+                   resources s (ckey h) = Some (fst r)) /\
+  (forall r, cval h = Some r -> snd r <> epanic).
 
 Definition map_ok (s : state) : Prop :=
   forall g k c, calls s g k = Some c ->
@@ -203,7 +222,7 @@ Record frame (s s' : state) (t : nat) : Prop := mkFrame
 
 Lemma frame_rec_ok s s' t t' th r : frame s s' t -> rec_ok s t' th r -> rec_ok s' t' th r.
 Proof.
-  intros F (o & Ho & Hlt & Hc & Hg & Hk & Hd & H1 & H2 & H3 & Hv & Hf & Hnf & Hlc & Hrm).
+  intros F (o & Ho & Hlt & Hc & Hg & Hk & Hd & H1 & H2 & H3 & Hv & Hf & Hnf & Hlc & Hrm & Hown & Hpan).
   destruct (f_mine _ _ _ F _ Hc) as (_ & _ & _ & _ & Hsame & _). specialize (Hsame Hd).
   exists o. split; [exact Ho|]. split; [exact Hlt|]. cbn zeta. rewrite Hsame.
   pose proof (f_now _ _ _ F). pose proof (f_next _ _ _ F).
@@ -285,15 +304,15 @@ Lemma heap_ok_same s s' t th th' c :
   (forall k x, resources s k = Some x -> resources s' k = Some x) ->
   heap s' c = heap s c -> heap_ok s c -> heap_ok s' c.
 Proof.
-  intros Ht Hth Hsc Hnow Hres E (H1 & H2 & H3 & H4). unfold heap_ok. rewrite E. cbn zeta.
-  split; [|split; [exact H2|split]].
+  intros Ht Hth Hsc Hnow Hres E (H1 & H2 & H3 & H4 & H5). unfold heap_ok. rewrite E. cbn zeta.
+  split; [|split; [exact H2|split; [|split; [|exact H5]]]].
   - destruct H1 as (thL & oL & A & B & C1 & C2 & C3). rewrite Hth.
     destruct (Nat.eq_dec (fst (clead (heap s c))) t) as [Et|Et].
     + rewrite Et in *. rewrite Ht in A. inversion A; subst thL.
       exists th', oL. rewrite (nth_error_upd_nth_eq _ _ _ _ Ht), Hsc. repeat split; auto.
     + exists thL, oL. rewrite nth_error_upd_nth_neq by auto. repeat split; auto.
   - intros rt Hrt. destruct (H3 rt Hrt). split; [lia|assumption].
-  - intros Hg r Hr Hs. apply Hres. apply H4; assumption.
+  - intros Hg r Hr Hs Hn. apply Hres. apply H4; assumption.
 Qed.
 
 Lemma rm_ok_same s s' t th th' :
@@ -496,10 +515,10 @@ Section Cases.
   Lemma case_setval c r res' :
     owner_pc (tpc th) = Some c -> lead_ok s t th o c -> calls s (ogrp o) (okey o) = Some c -> truns th = 1 ->
     (forall k', res' k' = resources s k' \/ (k' = okey o /\ ogrp o = GRM /\ resources s k' = None)) ->
-    (ogrp o <> GRM -> r = (oval o, oerr o)) ->
+    (ogrp o <> GRM -> r = fn_ret o) ->
     (ogrp o = GRM -> snd r = 0%Z -> res' (okey o) = Some (fst r)) ->
     (forall c x, tpc th = PRmStore c x -> res' (okey o) <> None) ->
-    Inv (mkState (S (now s)) (calls s) (fupd (heap s) c (with_val (heap s c) r)) (nextc s) res' (ncreated s)
+    Inv (mkState (S (now s)) (calls s) (fupd (heap s) c (with_val (heap s c) (shared r))) (nextc s) res' (ncreated s)
            (upd_nth (threads s) t (set_pc th (PFnDone c r)))).
   Proof.
     intros Hown L C R Hres Hv1 Hv2 Hst.
@@ -523,14 +542,19 @@ Section Cases.
         * split; [exact C|]. split; [exact R|]. unfold val_ok. cbn. rewrite fupd_eq. cbn. auto.
       + cbn. eapply recs_keep; try exact Hrecs; cbn; auto.
     - cbn. intros c0 Hc0. destruct (Nat.eq_dec c0 c) as [->|Hne].
-      + destruct (inv_heap s HI c A1) as (H1 & H2 & H3 & H4).
+      + destruct (inv_heap s HI c A1) as (H1 & H2 & H3 & H4 & H5).
         unfold heap_ok. cbn. rewrite fupd_eq. cbn. rewrite A4. cbn.
-        split; [|split; [|split]].
+        split; [|split; [|split; [|split]]].
         * exists (set_pc th (PFnDone c r)), o. rewrite (nth_error_upd_nth_eq _ _ _ _ Ht). cbn.
-          repeat split; auto. intros Hg r' Hr'. inversion Hr'; subst r'. apply Hv1. congruence.
+          repeat split; auto. intros Hg r' Hr'. inversion Hr'; subst r'. rewrite (Hv1 ltac:(congruence)). reflexivity.
         * intros Hd. congruence.
         * intros rt Hrt. congruence.
-        * intros Hg r' Hr' Hs. inversion Hr'; subst r'. rewrite A3. apply Hv2; congruence.
+        * intros Hg r' Hr' Hs Hn. inversion Hr'; subst r'. rewrite A3.
+          assert (Hid : shared r = r).
+          { unfold shared in *. destruct (Z.eqb_spec (snd r) epanic); [|reflexivity].
+            cbn in Hn. exfalso. apply Hn. reflexivity. }
+          rewrite Hid in *. apply Hv2; congruence.
+        * intros r' Hr'. inversion Hr'; subst r'. apply shared_not_panic.
       + eapply heap_ok_same; try eassumption; try reflexivity; cbn; auto.
         * apply fupd_neq; exact Hne.
         * apply (inv_heap s HI); auto.
@@ -651,12 +675,13 @@ Section Cases.
         unfold lead_ok. cbn. rewrite fupd_eq. cbn. repeat split; auto; lia.
       + cbn. eapply recs_keep; try exact Hrecs; cbn; auto.
     - cbn. intros c0 Hc0. destruct (Nat.eq_dec c0 (nextc s)) as [->|Hne].
-      + unfold heap_ok. cbn. rewrite fupd_eq. cbn. split; [|split; [|split]].
+      + unfold heap_ok. cbn. rewrite fupd_eq. cbn. split; [|split; [|split; [|split]]].
         * exists th', o. rewrite (nth_error_upd_nth_eq _ _ _ _ Ht). cbn. repeat split; auto.
           intros _ r Hr. discriminate.
         * discriminate.
         * discriminate.
         * intros _ r Hr. discriminate.
+        * intros r Hr. discriminate.
       + eapply heap_ok_same; try eassumption; try reflexivity; cbn; auto.
         * apply fupd_neq; exact Hne.
         * apply (inv_heap s HI). lia.
@@ -672,16 +697,24 @@ Section Cases.
       intros k (o' & c' & x' & _ & _ & _ & E). congruence.
   Qed.
 
-  Lemma case_wake_return c v e : tpc th = PWait c -> ogrp o <> GLC ->
+  (* the waiter returns (v', e'): the shared pair itself, or - GetResource on the (nil, nil)
+     of a panicked leader - its own panic *)
+  Lemma case_wake_return c v e v' e' : tpc th = PWait c -> ogrp o <> GLC ->
     cdone (heap s c) = true -> cval (heap s c) = Some (v, e) ->
+    ((v', e') = (v, e) /\ (ogrp o = GRM -> ~ (v = vnil /\ e = 0%Z))) \/
+    ((v', e') = (vnil, epanic) /\ v = vnil /\ e = 0%Z) ->
+    (ogrp o = GSF -> (v', e') = (vnil, epanic) -> False) ->
     Inv (mkState (S (now s)) (calls s) (heap s) (nextc s) (resources s) (ncreated s)
-           (upd_nth (threads s) t (finish th v e false c (now s)))).
+           (upd_nth (threads s) t (finish th v' e' false c (now s)))).
   Proof.
-    intros Epc Hg Hd Hv. pose proof pc_known as P. unfold pc_ok in P. rewrite Epc in P.
+    intros Epc Hg Hd Hv Hret HretSF. pose proof pc_known as P. unfold pc_ok in P. rewrite Epc in P.
     destruct P as (A1 & A2 & A3 & A4 & A5 & A6 & A7 & A8 & A9).
-    set (th' := finish th v e false c (now s)). set (s' := mkState _ _ _ _ _ _ _).
+    set (th' := finish th v' e' false c (now s)). set (s' := mkState _ _ _ _ _ _ _).
     assert (F : frame s s' t) by plain_frame.
-    destruct (inv_heap s HI c A1) as (H1 & H2 & H3 & H4).
+    destruct (inv_heap s HI c A1) as (H1 & H2 & H3 & H4 & H5).
+    assert (Hsh : Some (v, e) = Some (shared (v', e'))).
+    { destruct Hret as [(E & _)|(E & -> & ->)]; inversion E; subst v' e'; [|reflexivity].
+      rewrite shared_id; [reflexivity|]. apply (H5 _ Hv). }
     eapply build_inv; try eassumption; try reflexivity.
     - split; [|split].
       + intros _. reflexivity.
@@ -691,8 +724,22 @@ Section Cases.
         * constructor; [|constructor]. exists o. cbn. split; [exact Ho|]. split; [lia|].
           destruct (H2 Hd) as (r0 & rt & Hr0 & Hrt).
           repeat split; auto; try lia; try discriminate; try (exfalso; apply Hg; assumption).
+          -- intros _. rewrite Hv. exact Hsh.
           -- exists rt. split; [exact Hrt|]. apply A6. exact Hrt.
-          -- intros Eg Ee. rewrite <- A3. apply (H4 (eq_trans A2 Eg) _ Hv). exact Ee.
+          -- intros Eg Ee. rewrite <- A3.
+             destruct Hret as [(E & Hnn)|(E & _ & _)].
+             ++ assert (E1 : v' = v) by congruence. assert (E2 : e' = e) by congruence.
+                rewrite E1. apply (H4 (eq_trans A2 Eg) _ Hv); cbn; [congruence|].
+                intros Hvn. apply (Hnn Eg). split; congruence.
+             ++ assert (E2 : e' = epanic) by congruence. rewrite E2 in Ee. discriminate Ee.
+          -- intros Eg Ee. exfalso.
+             destruct Hret as [(E & _)|(E & Evn & Een)].
+             ++ assert (E2 : e' = e) by congruence. apply (H5 _ Hv). cbn. congruence.
+             ++ (* only GetResource turns the (nil, nil) of a panicked leader into a panic *)
+                destruct (ogrp o) eqn:Eo; try discriminate Eg.
+                assert (Hnp : snd (v, e) <> epanic) by (apply (H5 _ Hv)).
+                (* for SingleFlight the step returns the shared pair itself *)
+                exact (HretSF eq_refl E).
     - cbn. intros c0 Hc0. eapply heap_ok_same; try eassumption; try reflexivity; cbn; auto.
       apply (inv_heap s HI); auto.
     - eapply map_ok_same; try eassumption; try reflexivity; cbn; auto. apply (inv_map s HI).
@@ -719,7 +766,7 @@ Section Cases.
         + left. apply fupd_neq. exact Hne.
       - intros; left; assumption.
       - intros; left; reflexivity. }
-    destruct (inv_heap s HI c A1) as (H1 & H2 & H3 & H4).
+    destruct (inv_heap s HI c A1) as (H1 & H2 & H3 & H4 & H5).
     eapply build_inv; try eassumption; try reflexivity.
     - split; [|split].
       + intros _. reflexivity.
@@ -731,14 +778,15 @@ Section Cases.
           repeat split; auto; try lia; try discriminate.
           all: match goal with H : ogrp o = GLC |- _ => specialize (V2 ltac:(congruence)); congruence end.
     - cbn. intros c0 Hc0. destruct (Nat.eq_dec c0 c) as [->|Hne].
-      + unfold heap_ok. cbn. rewrite fupd_eq. cbn. split; [|split; [|split]].
+      + unfold heap_ok. cbn. rewrite fupd_eq. cbn. split; [|split; [|split; [|split]]].
         * destruct H1 as (thL & oL & B1 & B2 & B3 & B4 & B5).
           rewrite A4 in B1, B2. cbn in B1, B2. rewrite Ht in B1. inversion B1; subst thL.
           exists th', oL. rewrite A4. cbn. rewrite (nth_error_upd_nth_eq _ _ _ _ Ht).
           repeat split; auto.
-        * intros _. exists r, (now s). auto.
+        * intros _. exists (shared r), (now s). auto.
         * intros rt Hrt. inversion Hrt. split; [lia|reflexivity].
         * exact H4.
+        * exact H5.
       + eapply heap_ok_same; try eassumption; try reflexivity; cbn; auto.
         * apply fupd_neq; exact Hne.
         * apply (inv_heap s HI); auto.
@@ -765,16 +813,31 @@ Proof.
   - destruct (cdone (heap s c)) eqn:Ed; [|discriminate].
     destruct (ogrp o) eqn:Eg.
     + destruct (cval (heap s c)) as [[v e]|] eqn:Ev; [|discriminate]. inversion H; subst s'.
-      eapply case_wake_return; eauto. congruence.
+      apply (case_wake_return s t th o HI Ht Ho c v e v e Epc ltac:(congruence) Ed Ev).
+      * left. split; [reflexivity|]. intros Eg'. congruence.
+      * intros _ E. destruct P as (P1 & _). destruct (inv_heap s HI c P1) as (_ & _ & _ & _ & H5).
+        apply (H5 _ Ev). cbn. congruence.
     + inversion H; subst s'. eapply case_retry; eauto.
-    + destruct (cval (heap s c)) as [[v e]|] eqn:Ev; [|discriminate]. inversion H; subst s'.
-      eapply case_wake_return; eauto. congruence.
+    + destruct (cval (heap s c)) as [[v e]|] eqn:Ev; [|discriminate].
+      destruct (Z.eqb_spec v vnil) as [Evn|Evn]; destruct (Z.eqb_spec e 0) as [Een|Een];
+        cbn [andb] in H; inversion H; subst s'.
+      * apply (case_wake_return s t th o HI Ht Ho c v e vnil epanic Epc ltac:(congruence) Ed Ev);
+          [right; auto | intros X; congruence].
+      * apply (case_wake_return s t th o HI Ht Ho c v e v e Epc ltac:(congruence) Ed Ev);
+          [|intros X; congruence].
+        left. split; [reflexivity|]. intros _ [_ X]. contradiction.
+      * apply (case_wake_return s t th o HI Ht Ho c v e v e Epc ltac:(congruence) Ed Ev);
+          [|intros X; congruence].
+        left. split; [reflexivity|]. intros _ [X _]. contradiction.
+      * apply (case_wake_return s t th o HI Ht Ho c v e v e Epc ltac:(congruence) Ed Ev);
+          [|intros X; congruence].
+        left. split; [reflexivity|]. intros _ [X _]. contradiction.
   - inversion H; subst s'. eapply case_fnstart; eauto.
   - destruct P as (L & C & R).
-    assert (Plain : forall r, ogrp o <> GRM -> r = (oval o, oerr o) ->
-              Inv (mkState (S (now s)) (calls s) (fupd (heap s) c (with_val (heap s c) r)) (nextc s)
+    assert (Plain : forall r, ogrp o <> GRM -> r = fn_ret o ->
+              Inv (mkState (S (now s)) (calls s) (fupd (heap s) c (with_val (heap s c) (shared r))) (nextc s)
                      (resources s) (ncreated s) (upd_nth (threads s) t (set_pc th (PFnDone c r))))).
-    { intros r Hg Hr. eapply case_setval; eauto.
+    { intros r Hg Hr. apply (case_setval s t th o HI Ht Ho c r (resources s)); auto.
       - rewrite Epc. reflexivity.
       - contradiction.
       - intros c0 x0 E0. congruence. }
@@ -782,7 +845,8 @@ Proof.
     + inversion H; subst s'. apply Plain; congruence.
     + inversion H; subst s'. apply Plain; congruence.
     + destruct (resources s (okey o)) as [x|] eqn:Er; inversion H; subst s'.
-      * eapply case_setval; eauto.
+      * change (with_val (heap s c) (x, 0%Z)) with (with_val (heap s c) (shared (x, 0%Z))).
+        apply (case_setval s t th o HI Ht Ho c (x, 0%Z) (resources s)); auto.
         -- rewrite Epc. reflexivity.
         -- rewrite Eg. exact C.
         -- congruence.
@@ -791,13 +855,14 @@ Proof.
   - destruct P as (L & C & R & G & N).
     destruct (Z.eqb_spec (oerr o) 0) as [Ee|Ee]; inversion H; subst s'.
     + eapply case_created; eauto.
-    + eapply case_setval; eauto.
+    + apply (case_setval s t th o HI Ht Ho c (vnil, oerr o) (resources s)); auto.
       * rewrite Epc. reflexivity.
       * congruence.
       * cbn. intros _ E0. contradiction.
       * intros c0 x0 E0. congruence.
   - destruct P as (L & C & R & G & N). inversion H; subst s'.
-    eapply case_setval; eauto.
+    change (with_val (heap s c) (x, 0%Z)) with (with_val (heap s c) (shared (x, 0%Z))).
+    apply (case_setval s t th o HI Ht Ho c (x, 0%Z) (zupd (resources s) (okey o) (Some x))); auto.
     + rewrite Epc. reflexivity.
     + intros k'. destruct (Z.eq_dec k' (okey o)) as [->|Hne].
       * right. auto.
@@ -807,11 +872,13 @@ Proof.
     + intros c0 x0 _. rewrite zupd_eq. discriminate.
   - inversion H; subst s'. eapply case_delete; eauto.
   - destruct P as (L & R & (V1 & V2 & V3)).
-    assert (E : (match ogrp o with
+    assert (E : (if Z.eqb (snd r) epanic then r else
+                 match ogrp o with
                  | GLC => r
                  | _ => match cval (heap s c) with Some r' => r' | None => r end
                  end) = r).
-    { rewrite V1. destruct (ogrp o); reflexivity. }
+    { destruct (Z.eqb_spec (snd r) epanic) as [Ep|Ep]; [reflexivity|].
+      rewrite V1, (shared_id r Ep). destruct (ogrp o); reflexivity. }
     rewrite E in H. destruct r as [v e]. inversion H; subst s'.
     apply (case_done s t th o HI Ht Ho c (v, e) Epc).
 Qed.
@@ -892,10 +959,12 @@ Proof.
   destruct (tpc th); try reflexivity.
   - destruct (calls s (ogrp o) (okey o)); reflexivity.
   - destruct (cdone (heap s c)); [|reflexivity]. cbn.
-    destruct (ogrp o); try reflexivity; destruct (cval (heap s c)) as [[v e]|]; reflexivity.
+    destruct (ogrp o); try reflexivity; destruct (cval (heap s c)) as [[v e]|]; try reflexivity.
+    destruct ((v =? vnil)%Z && (e =? 0)%Z); reflexivity.
   - destruct (ogrp o); try reflexivity. destruct (resources s (okey o)); reflexivity.
   - destruct (Z.eqb (oerr o) 0); reflexivity.
-  - destruct (match ogrp o with GLC => r | _ => match cval (heap s c) with Some r' => r' | None => r end end).
+  - destruct (if Z.eqb (snd r) epanic then r else
+              match ogrp o with GLC => r | _ => match cval (heap s c) with Some r' => r' | None => r end end).
     reflexivity.
 Qed.
 
@@ -935,10 +1004,58 @@ Lemma exec_value s c : Inv s -> c < nextc s -> cgrp (heap s c) <> GRM ->
   exists thL oL, nth_error (threads s) (fst (clead (heap s c))) = Some thL /\
                  nth_error (tscript thL) (snd (clead (heap s c))) = Some oL /\
                  ogrp oL = cgrp (heap s c) /\ okey oL = ckey (heap s c) /\
-                 forall r, cval (heap s c) = Some r -> r = (oval oL, oerr oL).
+                 forall r, cval (heap s c) = Some r -> r = shared (fn_ret oL).
 Proof.
   intros HI Hc Hg. destruct (inv_heap s HI c Hc) as ((thL & oL & A & B & C & D & E) & _).
   exists thL, oL. repeat split; auto.
+Qed.
+
+(* panics: a function that does not panic hands over exactly its scripted pair *)
+Lemma fn_ret_nopanic o : panics o = false -> fn_ret o = (oval o, oerr o) /\ shared (fn_ret o) = (oval o, oerr o).
+Proof.
+  intros H. unfold fn_ret. rewrite H. split; [reflexivity|]. apply shared_id. cbn.
+  unfold panics in H. apply Z.eqb_neq. exact H.
+Qed.
+
+Lemma fn_ret_panic_iff o : snd (fn_ret o) = epanic <-> panics o = true.
+Proof.
+  unfold fn_ret. destruct (panics o) eqn:E; cbn; split; auto; try discriminate.
+  intros H. unfold panics in E. apply Z.eqb_neq in E. contradiction.
+Qed.
+
+(* every SingleFlight result is the shared outcome of the execution led by some caller of the
+   same key; if that leader's function does not panic it is exactly its scripted (val, err).
+   (Used by C06: load suppression of doTake.) *)
+Lemma sf_result_of_leader s t th r o :
+  Inv s -> nth_error (threads s) t = Some th -> In r (tres th) ->
+  nth_error (tscript th) (rop r) = Some o -> ogrp o = GSF ->
+  let c := heap s (rcid r) in
+  exists thL oL,
+    nth_error (threads s) (fst (clead c)) = Some thL /\
+    nth_error (tscript thL) (snd (clead c)) = Some oL /\
+    ogrp oL = GSF /\ okey oL = okey o /\
+    shared (rval r, rerr r) = shared (fn_ret oL) /\
+    (panics oL = false -> (rval r, rerr r) = (oval oL, oerr oL)).
+Proof.
+  intros HI Ht Hr Ho Hg c.
+  destruct (recs_ok s t th r HI Ht Hr)
+    as (o' & A0 & A1 & A2 & A3 & A4 & A5 & A6 & A7 & A8 & A9 & A10 & A11 & A12 & A13 & A14 & A15).
+  rewrite Ho in A0. inversion A0; subst o'. clear A0.
+  assert (Hn : cgrp (heap s (rcid r)) <> GRM) by (rewrite A3, Hg; discriminate).
+  destruct (exec_value s (rcid r) HI A2 Hn) as (thL & oL & B1 & B2 & B3 & B4 & B5).
+  assert (V : cval (heap s (rcid r)) = Some (shared (rval r, rerr r))) by (apply A9; rewrite Hg; discriminate).
+  pose proof (B5 _ V) as E.
+  exists thL, oL. subst c. split; [exact B1|]. split; [exact B2|].
+  split; [rewrite B3, A3; exact Hg|]. split; [rewrite B4, A4; reflexivity|]. split; [exact E|].
+  intros Hnp. destruct (fn_ret_nopanic oL Hnp) as [_ F2]. rewrite F2 in E.
+  destruct (Z.eq_dec (rerr r) epanic) as [Ep|Ep].
+  - exfalso. pose proof (A15 Hg Ep) as Fr. destruct (A10 Fr) as (L1 & _).
+    rewrite L1 in B1, B2. cbn in B1, B2. rewrite Ht in B1. inversion B1; subst thL.
+    rewrite Ho in B2. inversion B2; subst oL.
+    assert (Hr' : (rval r, rerr r) = fn_ret o) by (apply A14; [exact Fr|rewrite Hg; discriminate]).
+    assert (Hp : snd (fn_ret o) = epanic) by (rewrite <- Hr'; exact Ep).
+    apply fn_ret_panic_iff in Hp. congruence.
+  - rewrite shared_id in E by exact Ep. exact E.
 Qed.
 
 (* ------------------------------------------------------------------ *)
@@ -953,7 +1070,7 @@ Lemma no_stale_result_l : forall scripts sched t th r o,
   nth_error (tscript th) (rop r) = Some o -> ogrp o <> GLC ->
   let c := heap s (rcid r) in
   cgrp c = ogrp o /\ ckey c = okey o /\ cdone c = true /\
-  cval c = Some (rval r, rerr r) /\
+  cval c = Some (shared (rval r, rerr r)) /\
   rinv r <= rjoin r /\ rjoin r < rret r /\
   ((rfresh r = true /\ clead c = (t, rop r) /\ cinvt c = rinv r /\ cret c = Some (rret r)) \/
    (rfresh r = false /\ fst (clead c) <> t /\ cinvt c <= rjoin r /\
@@ -975,7 +1092,7 @@ Lemma execution_value_l : forall scripts sched c,
   exists thL oL, nth_error (threads s) (fst (clead (heap s c))) = Some thL /\
                  nth_error (tscript thL) (snd (clead (heap s c))) = Some oL /\
                  ogrp oL = cgrp (heap s c) /\ okey oL = ckey (heap s c) /\
-                 forall r, cval (heap s c) = Some r -> r = (oval oL, oerr oL).
+                 forall r, cval (heap s c) = Some r -> r = shared (fn_ret oL).
 Proof. intros. apply exec_value; auto. apply exec_inv. Qed.
 
 Lemma fresh_unique_l : forall scripts sched t1 t2 th1 th2 r1 r2,
@@ -1010,12 +1127,12 @@ Lemma locked_calls_own_l : forall scripts sched t th r o,
   let s := exec scripts sched in
   nth_error (threads s) t = Some th -> In r (tres th) ->
   nth_error (tscript th) (rop r) = Some o -> ogrp o = GLC ->
-  rval r = oval o /\ rerr r = oerr o /\ rruns r = 1.
+  (rval r, rerr r) = fn_ret o /\ rruns r = 1.
 Proof.
   intros scripts sched t th r o s Ht Hr Ho Hg.
   destruct (recs_ok s t th r (exec_inv _ _) Ht Hr)
     as (o' & A0 & _ & _ & _ & _ & _ & _ & _ & _ & _ & A10 & _ & A12 & _).
-  rewrite Ho in A0. inversion A0; subst o'. destruct (A12 Hg) as (F & V & E).
+  rewrite Ho in A0. inversion A0; subst o'. destruct (A12 Hg) as (F & V).
   destruct (A10 F) as (_ & R & _). auto.
 Qed.
 
